@@ -13,9 +13,12 @@ round trips, floor seconds, exact decimal text (integer arithmetic), `-0000`
 iff negative UTC, verbatim offset bytes, range rejection.
 """
 import calendar
+import contextlib
 import datetime as D
+import os
 import re
 import sys
+import time
 
 from . import core
 
@@ -30,7 +33,14 @@ THEOREMS = [
 ]
 RULE = ("seconds {range ends, +-1 around them, -1, 0, 1, random} x microseconds {0,1,10,100000,999999,500000,random,-1,10^6}; "
         "aware datetimes with every fixed offset in +-1439 minutes (and some non-whole-minute ones), named zones from "
-        "zoneinfo (LMT and DST folds included) when tzdata is present; the whole 16-bit x negative_utc grid of "
+        "zoneinfo at random wall-clock times (LMT included), AND at the zones' actual utcoffset transitions: these are "
+        "found per run by scanning each zone of a pool (36 zones with 30-minute / 44m30s / 15-minute / 2-hour / 24-hour "
+        "and sub-minute shifts, negative DST, plus random zones) over 1900..2037 (10-day samples, bisection to the second); "
+        "around each chosen transition: wall-clock times inside the repeated interval with fold=0 and fold=1, inside the "
+        "gap with both folds, at the edges, just before and after, microseconds {0, 1, 500000, 999999, random}, the "
+        "tzinfo taken from zoneinfo, dateutil.tz.gettz or pytz.localize(is_dst); the expected instant is wall clock minus "
+        "utcoffset() of that very datetime by integer arithmetic; about 12-30 % of all non-grid cases run with a non-UTC "
+        "machine zone (POSIX TZ string + time.tzset(), recorded in the case, restored afterwards); the whole 16-bit x negative_utc grid of "
         "from_numeric_offset (131072 points, in ranges of 1024 offsets per case); dict forms (offset_bytes, legacy "
         "offset/negative_utc, int, bool, missing keys, wrong types); ISO-8601 strings incl. -00:00; raw offset bytes in "
         "[+-][0-9]+ incl. the 4300-digit int() limit.  non-trivial = non-zero microseconds, or an offset whose minute "
@@ -39,6 +49,8 @@ TRUSTED = [
     "CPython datetime arithmetic as modelled in model/Time.v: an aware datetime is (epoch_us, utcoffset seconds), valid iff "
     "its wall clock lies in datetime.min..datetime.max; astimezone/replace/timestamp/fromtimestamp/timezone() have their "
     "arithmetic meaning incl. OverflowError; .timestamp() of a whole-second aware datetime is an exact float (< 2^53)",
+    "zoneinfo / dateutil.tz / pytz give the utcoffset() of an input datetime (fold-aware per PEP 495; pytz through "
+    "localize(is_dst)): that offset is part of the INPUT - the model receives (instant, offset) = (wall - utcoffset, utcoffset)",
     "iso8601.parse_date is an oracle: from_iso8601 is modelled from the parsed datetime and the flag tzname()=='-00:00'",
     "CPython int(): on ASCII digit runs it is the decimal value, ValueError beyond sys.int_max_str_digits=4300 digits; "
     "'%d', '{:02}', '%06d' are lib/Dec.v dec_Z / dec_pad; str.rstrip('0') is lib/DecPad.v rstrip0",
@@ -48,6 +60,9 @@ ASSUMPTIONS = [
     "verbatim (proved) but their numeric reading is outside the model and the correspondence domain",
     "negative_utc with a positive offset is outside the property's domain: the code's assert fires (proved and checked)",
     "sub-second utcoffsets are not modelled; naive datetimes are modelled only as `ValueError`",
+    "for named zones only whole-minute offsets are in scope of the round trip (same offset back); for other offsets "
+    "(LMT, Amsterdam before 1940, Monrovia before 1972) seconds/microseconds must still be exact and the instant kept",
+    "no observable may depend on the machine's local zone (cases are run under several TZ settings)",
 ]
 CASE_TIMEOUT = 60
 
@@ -127,11 +142,69 @@ def mk_wall(wall_us):
     return EPOCH_NAIVE + D.timedelta(microseconds=wall_us)
 
 
+try:
+    from dateutil import tz as _dateutil_tz
+except Exception:  # pragma: no cover
+    _dateutil_tz = None
+try:
+    import pytz as _pytz
+except Exception:  # pragma: no cover
+    _pytz = None
+TZ_LIBS = (["zoneinfo"] if zoneinfo else []) + (["dateutil"] if _dateutil_tz else []) + (["pytz"] if _pytz else [])
+_TZ_CACHE = {}
+
+
+def tz_of(lib, zone):
+    """the tzinfo provider of a named zone in one of the three libraries (None if that library does not know it)"""
+    key = (lib, zone)
+    if key not in _TZ_CACHE:
+        try:
+            if lib == "zoneinfo":
+                t = zoneinfo.ZoneInfo(zone)
+            elif lib == "dateutil":
+                t = _dateutil_tz.gettz(zone)
+            else:
+                t = _pytz.timezone(zone)
+        except Exception:
+            t = None
+        _TZ_CACHE[key] = t
+    return _TZ_CACHE[key]
+
+
 def dt_of_case(c):
     w = mk_wall(c["wall_us"])
     if "zone" in c:
-        return w.replace(tzinfo=zoneinfo.ZoneInfo(c["zone"]), fold=c.get("fold", 0))
+        lib = c.get("lib", "zoneinfo")
+        tz = tz_of(lib, c["zone"])
+        if lib == "pytz":
+            # pytz has no fold: is_dst=True picks the first occurrence of a repeated wall time, False the second
+            return tz.localize(w, is_dst=(c.get("fold", 0) == 0))
+        return w.replace(tzinfo=tz, fold=c.get("fold", 0))
     return w.replace(tzinfo=D.timezone(D.timedelta(seconds=c["off_s"])))
+
+
+# POSIX TZ strings (no zone file needed): the machine's local zone under which a share of the cases is run
+TZENV_POOL = ["EST5EDT,M3.2.0,M11.1.0", "IST-5:30", "<+1245>-12:45<+1345>,M9.5.0/2:45,M4.1.0/3:45",
+              "CET-1CEST,M3.5.0,M10.5.0/3", "<-0930>9:30", "<+14>-14", "LHST-10:30LHDT-11,M10.1.0,M4.1.0"]
+
+
+@contextlib.contextmanager
+def tzenv(name):
+    """run the body with os.environ["TZ"] = name (time.tzset()), restored afterwards"""
+    if not name:
+        yield
+        return
+    old = os.environ.get("TZ")
+    os.environ["TZ"] = name
+    time.tzset()
+    try:
+        yield
+    finally:
+        if old is None:
+            os.environ.pop("TZ", None)
+        else:
+            os.environ["TZ"] = old
+        time.tzset()
 
 
 def abstr(dt):
@@ -236,7 +309,117 @@ def gen_dt_zone(rng):
     else:
         w = rng.choice([DT_MIN_US, DT_MAX_US]) + rng.randrange(-2 * 86400 * M, 2 * 86400 * M)
         w = min(max(w, DT_MIN_US), DT_MAX_US)
-    return {"k": "dt", "wall_us": w, "zone": z, "fold": rng.randrange(2)}
+    c = {"k": "dt", "wall_us": w, "zone": z, "fold": rng.randrange(2)}
+    if r < 0.6 and rng.random() < 0.4:
+        lib = rng.choice(TZ_LIBS)
+        if lib != "zoneinfo" and tz_of(lib, z) is not None:
+            c["lib"] = lib
+    return c
+
+
+# ------------------------------------------------ DST / offset transitions of named zones
+EPOCH_UTC = D.datetime(1970, 1, 1, tzinfo=D.timezone.utc)
+SCAN_LO = calendar.timegm((1900, 1, 1, 0, 0, 0))
+SCAN_HI = calendar.timegm((2037, 12, 31, 0, 0, 0))
+_TRANS = {}
+# zones with half-hour / odd shifts, negative DST, day skips, two-hour shifts, sub-minute offsets, ...
+ZONE_POOL = ["Europe/Paris", "America/New_York", "Europe/London", "Europe/Dublin", "Australia/Lord_Howe", "Pacific/Chatham",
+             "Africa/Monrovia", "Asia/Kathmandu", "Europe/Amsterdam", "America/Sao_Paulo", "Australia/Sydney", "Asia/Tehran",
+             "America/St_Johns", "Asia/Kolkata", "America/Caracas", "Pacific/Apia", "Pacific/Kiritimati", "Africa/Casablanca",
+             "Asia/Pyongyang", "Antarctica/Troll", "America/Havana", "Asia/Gaza", "Europe/Moscow", "America/Santiago",
+             "Africa/Cairo", "Asia/Kabul", "Pacific/Marquesas", "Europe/Lisbon", "America/Nuuk", "Asia/Colombo",
+             "Europe/Istanbul", "America/Los_Angeles", "Australia/Adelaide", "Asia/Yangon", "Africa/Windhoek", "Asia/Seoul"]
+# (zone, first year, last year): transitions that are always taken
+MUST_TRANSITIONS = [("Africa/Monrovia", 1972, 1972), ("Asia/Kathmandu", 1985, 1986), ("Europe/Amsterdam", 1916, 1940),
+                    ("Europe/Paris", 2020, 2020), ("America/New_York", 1968, 1968), ("Australia/Lord_Howe", 1981, 2030),
+                    ("Pacific/Chatham", 1974, 2030), ("Pacific/Apia", 2011, 2011), ("Europe/Dublin", 1971, 2030)]
+
+
+def _off_at(tz, t):
+    """utcoffset (seconds) in force at the UTC instant t: UTC -> local is never ambiguous"""
+    o = (EPOCH_UTC + D.timedelta(seconds=t)).astimezone(tz).utcoffset()
+    return o.days * 86400 + o.seconds
+
+
+def transitions(zone):
+    """[(T, offset before, offset after)] for the utcoffset changes of the zone between 1900 and 2037, found by sampling
+    every 10 days and bisecting to the second (zoneinfo; cached per run)"""
+    if zone in _TRANS:
+        return _TRANS[zone]
+    res = []
+    tz = tz_of("zoneinfo", zone)
+    if tz is not None:
+        step = 10 * 86400
+        t, o = SCAN_LO, _off_at(tz, SCAN_LO)
+        while t < SCAN_HI:
+            t2 = min(t + step, SCAN_HI)
+            o2 = _off_at(tz, t2)
+            if o2 == o:
+                t = t2
+                continue
+            a, b = t, t2
+            while b - a > 1:
+                m = (a + b) // 2
+                if _off_at(tz, m) == o:
+                    a = m
+                else:
+                    b = m
+            ob = _off_at(tz, b)
+            res.append((b, o, ob))
+            t, o = b, ob
+    _TRANS[zone] = res
+    return res
+
+
+TRANS_US = [1, 500000, 999999]
+
+
+def gen_at_transition(rng, zone, T, ob, oa, n_inside=3):
+    """wall-clock times around one transition: inside the repeated (oa < ob) or missing (oa > ob) interval with both
+    fold values, at its edges, just before and after it; microseconds 0 / 1 / 500000 / 999999 / random"""
+    lo_w, hi_w = T + min(ob, oa), T + max(ob, oa)        # [lo_w, hi_w) is read twice or never on the local clock
+    where = "repeated" if oa < ob else "gap"
+    libs = [l for l in TZ_LIBS if tz_of(l, zone) is not None]
+    out = []
+
+    def add(wall_s, us, fold, wh, lib):
+        c = {"k": "dt", "wall_us": wall_s * M + us, "zone": zone, "fold": fold, "lib": lib, "where": wh}
+        try:
+            if abstr(dt_of_case(c)) is None:
+                return
+        except Exception:
+            return
+        out.append(c)
+    inside = [lo_w, hi_w - 1] + [rng.randrange(lo_w, hi_w) for _ in range(max(1, n_inside - 2))]
+    for w in inside:
+        lib = rng.choice(libs)
+        for us in (0, rng.choice(TRANS_US), rng.randrange(1, M)):
+            for fold in (0, 1):
+                add(w, us, fold, where, lib)
+    for w, wh in ((lo_w - 1, "before"), (lo_w - rng.randrange(1, 7200), "before"), (hi_w, "after"),
+                  (hi_w + rng.randrange(0, 7200), "after")):
+        add(w, rng.choice([0] + TRANS_US + [rng.randrange(1, M)]), rng.randrange(2), wh, rng.choice(libs))
+    return out
+
+
+def gen_transitions(rng, tier):
+    if not zoneinfo:
+        return []
+    quick = tier == "quick"
+    zones = list(ZONE_POOL) + rng.sample(ZONES, 6 if quick else 40)
+    zones = [z for i, z in enumerate(zones) if z not in zones[:i] and tz_of("zoneinfo", z) is not None]
+    chosen = []
+    for z, y0, y1 in MUST_TRANSITIONS:
+        lo, hi = calendar.timegm((y0, 1, 1, 0, 0, 0)), calendar.timegm((y1 + 1, 1, 1, 0, 0, 0))
+        l = [(z,) + tr for tr in transitions(z) if lo <= tr[0] < hi]
+        chosen += l if not quick else rng.sample(l, min(len(l), 6))
+    for z in zones:
+        l = [(z,) + tr for tr in transitions(z)]
+        chosen += l if not quick else rng.sample(l, min(len(l), 4))
+    cases = []
+    for z, T, ob, oa in chosen:
+        cases += gen_at_transition(rng, z, T, ob, oa, 3 if quick else 5)
+    return cases
 
 
 def gen_iso(rng):
@@ -326,8 +509,12 @@ def gen(rng, tier):
     if not quick:
         for _ in range(600000):
             cases.append(gen_dt_fixed(rng, 60 * rng.randrange(-1439, 1440)))
+    # 4b. named zones AT their transitions: repeated hours with fold 0 and 1, gaps, edges (zoneinfo, dateutil, pytz)
+    cases += gen_transitions(rng, tier)
     cases.append({"k": "naive", "wall_us": 0})
     cases.append({"k": "naive", "wall_us": 978307200 * M + 5})
+    for tz in TZENV_POOL:
+        cases.append({"k": "naive", "wall_us": rng.randrange(-10 ** 9, 2 * 10 ** 9) * M + rnd_us(rng, True), "tzenv": tz})
     # 5. dict forms
     for _ in range(3000 if quick else 60000):
         r = rng.random()
@@ -364,6 +551,10 @@ def gen(rng, tier):
         ob = rnd_offset_bytes(rng)
         if re.fullmatch(rb"[+-][0-9]+", ob):
             cases.append({"k": "pob", "ob": ob.hex()})
+    # 8. a share of the cases runs with a non-UTC machine zone (TZ + tzset): nothing here may depend on it
+    for c in cases:
+        if c["k"] != "grid" and "tzenv" not in c and rng.random() < (0.3 if "where" in c else 0.12):
+            c["tzenv"] = rng.choice(TZENV_POOL)
     return cases
 
 
@@ -374,7 +565,7 @@ def nontrivial(c):
     if k in ("ts", "num"):
         return not (c["s"].startswith("i") and c["us"] == "i0" and int(c["s"][1:]) >= 0) or (k == "num" and c["off"] % 60 != 0)
     if k == "dt":
-        return c["wall_us"] % M != 0 or c.get("off_s", 1) % 3600 != 0 or c["wall_us"] < 0
+        return "where" in c or c["wall_us"] % M != 0 or c.get("off_s", 1) % 3600 != 0 or c["wall_us"] < 0
     if k == "iso":
         return c["exp_us"] != 0 or c["exp_off"] % 60 != 0 or c["minus0"] or c["exp_epoch_s"] < 0
     if k in ("dnew", "dold"):
@@ -390,6 +581,13 @@ def classify(c):
     if k == "dt":
         ks.append("dt:named-zone" if "zone" in c else ("dt:whole-minute" if c["off_s"] % 60 == 0 else "dt:odd-offset"))
         ks.append("dt:us!=0" if c["wall_us"] % M else "dt:us=0")
+        if "zone" in c:
+            ks.append("dt:lib=" + c.get("lib", "zoneinfo"))
+        if "where" in c:
+            ks.append("dt:at-transition:%s%s" % (c["where"], (" fold=%d us%s0" % (c["fold"], "!=" if c["wall_us"] % M else "="))
+                                                 if c["where"] in ("repeated", "gap") else ""))
+    if c.get("tzenv"):
+        ks.append("machine-zone!=UTC")
     if k == "ts" and c["s"].startswith("i") and c["us"].startswith("i"):
         s, u = int(c["s"][1:]), int(c["us"][1:])
         ks.append("ts:" + ("in-range" if MIN_S <= s <= MAX_S and 0 <= u < M else "rejected"))
@@ -445,6 +643,11 @@ def grid_impl(lo, n):
 
 
 def impl(c):
+    with tzenv(c.get("tzenv")):
+        return _impl(c)
+
+
+def _impl(c):
     k = c["k"]
     try:
         if k == "grid":
@@ -580,6 +783,15 @@ def exp_text(s, us):
     return chk
 
 
+def describe(dt, c):
+    """the datetime with its zone, library, fold and machine zone, for oracle messages"""
+    if "zone" not in c:
+        return dt.isoformat() + (" [TZ=%s]" % c["tzenv"] if c.get("tzenv") else "")
+    return "%s [%s via %s, fold=%d%s%s]" % (dt.isoformat(), c["zone"], c.get("lib", "zoneinfo"), c.get("fold", 0),
+                                             ", " + c["where"] if "where" in c else "",
+                                             ", TZ=" + c["tzenv"] if c.get("tzenv") else "")
+
+
 OFF_RE = re.compile(rb"[+-][0-9]{4,}")
 
 
@@ -676,32 +888,34 @@ def oracle(c, ires, mres):
         return None
     if k == "dt":
         dt = dt_of_case(c)
-        a = abstr(dt)
+        a = abstr(dt)                       # instant = wall clock - utcoffset() of THIS datetime (its fold included)
         if a is None:
             return None
         e, off_s = a
         secs, us = e // M, e % M            # floor and remainder by integer arithmetic
+        desc = describe(dt, c)
         if not (MIN_S <= secs <= MAX_S):
             return None if not ok else "datetime outside the timestamp range accepted"
         if not ok:
-            return "aware datetime %s (in range) rejected with %s" % (dt.isoformat(), ires["error"])
+            return "aware datetime %s (in range) rejected with %s" % (desc, ires["error"])
         if (ires["s"], ires["us"]) != (secs, us):
             return "datetime %s: seconds/microseconds (%d, %d), expected floor/remainder (%d, %d)" % (
-                dt.isoformat(), ires["s"], ires["us"], secs, us)
+                desc, ires["s"], ires["us"], secs, us)
         if off_s % 60 == 0:
             if ires["om"] != off_s // 60:
-                return "datetime %s: offset %r minutes, expected %d" % (dt.isoformat(), ires["om"], off_s // 60)
+                return "datetime %s: offset %r minutes, expected %d" % (desc, ires["om"], off_s // 60)
             if ires["td"] != [e, off_s]:
-                return "datetime %s does not round-trip: to_datetime gives %r" % (dt.isoformat(), ires["td"])
+                return "datetime %s does not round-trip: to_datetime gives %r" % (desc, ires["td"])
             # (Python's == on aware datetimes is deliberately False across zones when one side sits in a DST
             #  gap/fold, so the instants are compared by subtraction and the offsets separately)
-            back = TSTZ.from_datetime(dt).to_datetime()
+            with tzenv(c.get("tzenv")):
+                back = TSTZ.from_datetime(dt).to_datetime()
             if back - dt != D.timedelta(0) or back.utcoffset() != dt.utcoffset():
-                return "datetime %s does not round-trip" % dt.isoformat()
+                return "datetime %s does not round-trip" % desc
             if core.unhx(ires["ob"]) == b"-0000":
                 return "-0000 produced from a datetime"
         elif isinstance(ires["td"], list) and ires["td"][0] != e:
-            return "datetime %s: instant not kept" % dt.isoformat()
+            return "datetime %s: instant not kept" % desc
         return None
     if k == "iso":
         if not (MIN_S <= c["exp_epoch_s"] <= MAX_S):
@@ -754,9 +968,15 @@ def shrink(c):
         h = c["n"] // 2
         yield {"k": "grid", "lo": c["lo"], "n": h}
         yield {"k": "grid", "lo": c["lo"] + h, "n": c["n"] - h}
+    if c.get("tzenv"):
+        yield {k: v for k, v in c.items() if k != "tzenv"}
     if c["k"] == "dt":
+        if c.get("lib", "zoneinfo") != "zoneinfo":
+            yield dict(c, lib="zoneinfo")
         if c["wall_us"] % M:
             yield dict(c, wall_us=c["wall_us"] - c["wall_us"] % M)
+            if c["wall_us"] % M != 1:
+                yield dict(c, wall_us=c["wall_us"] - c["wall_us"] % M + 1)
         if "off_s" in c and c["off_s"]:
             yield dict(c, off_s=0)
 
